@@ -459,7 +459,101 @@ func RetSourceGuarded(w *World, id, kind, fnName string, idx int, g Gate, what s
 	return out
 }
 
-var mapMutator = regexp.MustCompile(`^(delete|clear|maps\.Copy|maps\.DeleteFunc|\(apim/util/sets\.Set\[.*\]\)\.(Insert|Delete|Clear|PopAny))$`)
+var mapMutator = regexp.MustCompile(`^(delete|clear|maps\.(Copy|DeleteFunc|Insert)(\[.*\])?|\(apim/util/sets\.Set\[.*\]\)\.(Insert|Delete|Clear|PopAny))$`)
+
+// ParamWrites: indices of the parameters of f (receiver first, as in f.Params) whose referent f modifies in place when
+// the parameter is a map, slice or set: a map update / delete / clear, an element store, one of the in-place library
+// mutators, or handing the parameter on to a karpenter function that does so (transitively, depth-bounded, memoised).
+// A parameter that is only re-assigned locally or copied first (lo.Assign, maps.Clone) is not written.
+func (w *World) ParamWrites(f *ssa.Function) map[int]bool {
+	if w.paramWrites == nil {
+		w.paramWrites = map[*ssa.Function]map[int]bool{}
+	}
+	if r, ok := w.paramWrites[f]; ok {
+		return r
+	}
+	out := map[int]bool{}
+	w.paramWrites[f] = out // cycle guard (under-approximates recursion, which re-enters the same body)
+	if f == nil || len(f.Blocks) == 0 {
+		return out
+	}
+	idx := map[ssa.Value]int{}
+	for i, p := range f.Params {
+		switch p.Type().Underlying().(type) {
+		case *types.Map, *types.Slice:
+			idx[p] = i
+		}
+	}
+	if len(idx) == 0 {
+		return out
+	}
+	// the parameter a value denotes (through conversions, slicing and phis that merge only this parameter)
+	var param func(v ssa.Value, depth int) (int, bool)
+	param = func(v ssa.Value, depth int) (int, bool) {
+		if depth > 6 {
+			return 0, false
+		}
+		if i, ok := idx[v]; ok {
+			return i, true
+		}
+		switch x := v.(type) {
+		case *ssa.ChangeType:
+			return param(x.X, depth+1)
+		case *ssa.Slice:
+			return param(x.X, depth+1)
+		case *ssa.IndexAddr:
+			return param(x.X, depth+1)
+		case *ssa.Phi:
+			for _, e := range x.Edges {
+				if i, ok := param(e, depth+1); ok {
+					return i, true
+				}
+			}
+		}
+		return 0, false
+	}
+	for _, g := range WithClosures(f) {
+		for _, b := range g.Blocks {
+			for _, in := range b.Instrs {
+				switch x := in.(type) {
+				case *ssa.MapUpdate:
+					if i, ok := param(x.Map, 0); ok {
+						out[i] = true
+					}
+				case *ssa.Store:
+					if ia, ok := x.Addr.(*ssa.IndexAddr); ok {
+						if i, ok := param(ia.X, 0); ok {
+							out[i] = true
+						}
+					}
+				case ssa.CallInstruction:
+					c := x.Common()
+					if len(c.Args) == 0 {
+						continue
+					}
+					if mapMutator.MatchString(w.CalleeName(c)) {
+						if i, ok := param(c.Args[0], 0); ok {
+							out[i] = true
+						}
+						continue
+					}
+					callee := c.StaticCallee()
+					if callee == nil || c.IsInvoke() || !IsKarpenterFn(callee) {
+						continue
+					}
+					for j := range w.ParamWrites(callee) {
+						if j < len(c.Args) {
+							if i, ok := param(c.Args[j], 0); ok {
+								out[i] = true
+							}
+						}
+					}
+				}
+			}
+		}
+	}
+	return out
+}
 
 // StructFieldStores lists, over the given functions, the stores (and map updates / deletes through a field) whose
 // address chain passes through a field of one of the named struct types (short names).
@@ -524,7 +618,25 @@ func (w *World) StructFieldStores(fns []*ssa.Function, typs map[string]bool) []s
 				case ssa.CallInstruction:
 					// in-place mutators of a map/set held in such a field
 					c := x.Common()
-					if len(c.Args) == 0 || !mapMutator.MatchString(w.CalleeName(c)) {
+					if len(c.Args) == 0 {
+						continue
+					}
+					if !mapMutator.MatchString(w.CalleeName(c)) {
+						// a karpenter helper that modifies the map / slice it is handed
+						if callee := c.StaticCallee(); callee != nil && !c.IsInvoke() && IsKarpenterFn(callee) {
+							for j := range w.ParamWrites(callee) {
+								if j >= len(c.Args) || !hits(c.Args[j]) {
+									continue
+								}
+								if root, _ := w.AddrRoot(c.Args[j]); root != nil {
+									if _, fresh := root.(*ssa.Alloc); fresh {
+										continue
+									}
+								}
+								out = append(out, in)
+								break
+							}
+						}
 						continue
 					}
 					if hits(c.Args[0]) {
@@ -754,6 +866,23 @@ func FreshMapUpdates(w *World, id, kind, fnName string, min int, what string) []
 					if b, ok := x.Call.Value.(*ssa.Builtin); ok && (b.Name() == "delete" || b.Name() == "clear") && len(x.Call.Args) > 0 {
 						if _, isMap := x.Call.Args[0].Type().Underlying().(*types.Map); isMap {
 							m = x.Call.Args[0]
+						}
+					} else if len(x.Call.Args) > 0 && mapMutator.MatchString(w.CalleeName(x.Common())) {
+						if _, isMap := x.Call.Args[0].Type().Underlying().(*types.Map); isMap {
+							m = x.Call.Args[0]
+						}
+					} else if callee := x.Call.StaticCallee(); callee != nil && !x.Call.IsInvoke() && IsKarpenterFn(callee) {
+						// a helper that writes into the map it is handed
+						for j := range w.ParamWrites(callee) {
+							if j == 0 && callee.Signature.Recv() != nil {
+								continue // a named map type's own mutator methods (Requirements.Add …) are not label/annotation writes
+							}
+							if j < len(x.Call.Args) {
+								if _, isMap := x.Call.Args[j].Type().Underlying().(*types.Map); isMap && !fresh(x.Call.Args[j], 0) {
+									n++
+									out = append(out, one(id, kind, construct, Violated, n, w.InstrPos(in), fmt.Sprintf("%s: `%s` hands a map that was not created here (`%s`) to a helper that writes into it", what, clip(w.RenderInstr(in), 100), clip(w.RenderD(x.Call.Args[j], 4), 60))))
+								}
+							}
 						}
 					}
 				}
